@@ -69,6 +69,10 @@ def try_coerce_obligations(chk, e, tag=""):
     nat -> float goes through nat.__float__ = convert_u, never through a signed reading).
     Shared with C04 (mixed-type operands reach the operator through this function)."""
     e.func_info(EC, "try_coerce_to")
+    # implicit widening of the LEFT operand happens through the reflected operator (shared with C04)
+    from .C04 import operator_table_obligations
+    operator_table_obligations(chk, e, tag="widening-through-reflection:")
+
     numty = lambda it, k: _numty(e, it, k)  # noqa: E731
     mk_ctx = _mk_ctx
     cases = [(a, b) for a in KINDS + ["None"] for b in KINDS + ["None"]]
